@@ -3807,6 +3807,11 @@ class Network(Cached):
             # FIXME: check why there was a problem with ==1
             if len(comp) < 2:
                 nsi_newman_betweenness[comp[0]] = 0
+                #  the local-ends correction (2 W - k) k of a single node,
+                #  whose component weight W and n.s.i. degree k are its weight
+                if add_local_ends:
+                    nsi_newman_betweenness[comp[0]] = \
+                        self.node_weights[comp[0]] ** 2
             #  For larger components, continue with the calculation
             else:
                 #  Get the subgraph corresponding to component i
